@@ -2,7 +2,7 @@ SPECIFICATION Spec
 CONSTANTS
   AppPool <- D_AppPool
   MaxApps = 3
-  ErrKinds = {"fiber418", "plain", "notfound"}
+  ErrKinds = {"fiber418", "wrapped418", "plain", "notfound"}
   Tails <- D_Tails
 INVARIANT Emit
 INVARIANT ExactlyOnce
